@@ -26,11 +26,45 @@ def package(pats):
     protos = []
     for pat in pats:
         steps = [("s%d" % i, P("int32") if c == "N" else Stream(P("int32"))) for i, c in enumerate(pat)]
-        protos.append(Protocol("P" + pat.lower().capitalize(), steps))
+        protos.append(Protocol(pname(pat), steps))
     return Package("Fsm", protocols=protos, dirname="fsm")
 
 
+# long protocols: the state of a generated reader / writer must be able to count all their steps (in C++ it is a fixed-width integer
+# holding up to twice the number of steps)
+LONG = {"N" * 130: "Pl130n", "S" * 130: "Pl130s", "NS" * 64: "Pl128ns", "N" * 260: "Pl260n"}
+
+
+def long_walks(lang, kind, pat):
+    """Directed call sequences for a long protocol: the complete in-order walk, and the walk up to step k followed by a call that
+    must be refused (a step already passed, step 0 again, a step further ahead, close) for k around 127/128 and 255/256."""
+    n = len(pat)
+
+    def visit(i):
+        c = pat[i]
+        if kind == "W":
+            if c == "N":
+                return [("W", i)]
+            return [("WS", i), ("E", i)] if lang == "cpp" else [("WS", i)]
+        if c == "N":
+            return [("R", i)]
+        return [("RS", i)] if lang == "cpp" else [("R", i), ("N", i)]
+    full = []
+    for i in range(n):
+        full += visit(i)
+    out = [full + [("C",)]]
+    for k in sorted({1, 63, 64, 126, 127, 128, 129, 254, 255, 256, 257, n - 1} & set(range(1, n))):
+        prefix = []
+        for i in range(k):
+            prefix += visit(i)
+        for bad in (visit(0)[0], visit(k - 1)[0], visit(min(k + 1, n - 1))[0] if k + 1 < n else ("C",), ("C",)):
+            out.append(prefix + [bad] + visit(k)[:1])
+    return out
+
+
 def pname(pat):
+    if pat in LONG:
+        return LONG[pat]
     return "P" + pat.lower().capitalize()
 
 
@@ -407,8 +441,9 @@ def ref_call(lang, call):
     return call
 
 
-def explore(chk, lang, ask, pat, kind, rem, max_depth, blind_depth):
-    """BFS over call sequences with state merging (real state, model state); plus blind enumeration to blind_depth."""
+def explore(chk, lang, ask, pat, kind, rem, max_depth, blind_depth, only_seqs=None):
+    """BFS over call sequences with state merging (real state, model state); plus blind enumeration to blind_depth.
+    only_seqs: run exactly these sequences against the reference automaton instead of searching."""
     name = pname(pat)
     alpha = alphabet(lang, kind, pat)
     enc = enc_call_cpp if lang == "cpp" else enc_call_py
@@ -463,6 +498,10 @@ def explore(chk, lang, ask, pat, kind, rem, max_depth, blind_depth):
             prev_state = st
         return (prev_state, ref.key())
 
+    if only_seqs is not None:
+        for seq in only_seqs:
+            check_seq(list(seq))
+        return len(only_seqs), sum(len(x) for x in only_seqs), 0
     seen = {}
     model_of_real, real_of_model = {}, {}
     frontier = deque([()])
@@ -540,7 +579,7 @@ def main(tier):
                 "blind enumeration of all call sequences to depth 4 (3 for long protocols); reference automata per language; non-trivial = "
                 "every (protocol, object kind, environment) search" % (4 if quick else 5))
     pats = patterns(4 if quick else 5)
-    pkg = package(pats)
+    pkg = package(pats + list(LONG))
     root = os.path.join(build.scratch(), "c07")
     rc, err, outdir = cppdrv.generate(pkg, root, targets=("cpp", "python", "matlab"), cpp_opts={"generateNDJson": "false"})
     if rc != 0:
@@ -586,6 +625,15 @@ def main(tier):
                     chk.outcome((lang, kind, s))
         if len(chk.samples) < 5:
             chk.sample({"protocol": pat, "environments": len(rems), "example_calls": [list(c) for c in alphabet("cpp", "R", pat)][:6]})
+    for pat in LONG:
+        for lang, proc in (("cpp", cpp), ("py", py)):
+            for kind in ("W", "R"):
+                rem = [0] * len(pat)
+                s, t, b = explore(chk, lang, proc.ask, pat, kind, rem, 0, 0, only_seqs=long_walks(lang, kind, pat))
+                tot_states += s
+                tot_trans += t
+                chk.count()
+                chk.nontriv((lang, LONG[pat], kind))
     cpp.close()
     py.close()
     # MATLAB: static extraction of the guarded-command machine
